@@ -139,3 +139,74 @@ def sensitivity(args):
         fh.write("\n")
     print(f"[sensitivity] {len(rows) - len(missed)} of {len(rows)} caught; missed: {missed}")
     return 0 if not missed else 2
+
+
+def crashmodel(args):
+    """Validates simkit's model of a killed process against the kernel: the
+    same indexing run is (a) crashed in simulation before event k and
+    (b) run in a forked child that really dies (os._exit) before event k; the
+    durable states must be identical, for every k of every sampled case."""
+    import random
+
+    from . import gen, sandbox
+    from .props import c15
+    from .world import Fault
+
+    import logging
+
+    logging.getLogger().addHandler(logging.NullHandler())
+    n_cases = args.runs or 60
+    compared = mism = 0
+    t0 = time.time()
+    for ci in range(n_cases):
+        rng = random.Random(f"crashmodel:{ci}")
+        case = c15.gen_case(rng, "quick")
+        case["history"] = []
+        root = sandbox.make("CM", "quick", ci)
+        try:
+            ex = c15.Exec(case, root)
+            if ex.reference(0) is None:
+                continue
+            with ex.world:
+                ex.do_rewrite(0)
+                if rng.random() < 0.5:
+                    # start from an existing (stale) cache half of the time
+                    ex.world.run_solo(ex.body("auto"), pid=90)
+                    ex.world.advance(2)
+                    ex.do_rewrite(1 % len(ex.blobs))
+                saved = ex._save()
+                ex._seed_ticks(0, "cm")
+                proc = ex.world.run_solo(ex.body("auto"), pid=100)
+                n = proc.nevents
+                for k in range(n):
+                    ex._load(saved)
+                    ex._seed_ticks(0, "cm")
+                    ex.world.run_solo(ex.body("auto"), pid=100, fault=Fault("crash", k))
+                    with ex.world.suspend():
+                        sim = {r: v[0] for r, v in sandbox.snapshot(root).items()}
+                    ex._load(saved)
+                    ex._seed_ticks(0, "cm")
+                    pid = os.fork()
+                    if pid == 0:
+                        try:
+                            ex.world.run_solo(ex.body("auto"), pid=100, fault=Fault("realkill", k))
+                        finally:
+                            os._exit(0)
+                    os.waitpid(pid, 0)
+                    with ex.world.suspend():
+                        real = {r: v[0] for r, v in sandbox.snapshot(root).items()}
+                    compared += 1
+                    if sim != real:
+                        mism += 1
+                        if mism <= 3:
+                            print(f"[crashmodel] case {ci} k={k}: simulated {sorted((r, len(b)) for r, b in sim.items())} "
+                                  f"vs real {sorted((r, len(b)) for r, b in real.items())}")
+        finally:
+            sandbox.remove(root)
+    out = os.path.join(VERIF, "evidence", "selftest-crashmodel.json")
+    with open(out, "w") as fh:
+        json.dump({"cases": n_cases, "crash_points_compared_with_real_process_death": compared, "mismatches": mism,
+                   "seconds": round(time.time() - t0, 1)}, fh, indent=1)
+        fh.write("\n")
+    print(f"[crashmodel] {compared} crash points compared against real process death, {mism} mismatches")
+    return 0 if not mism else 2
